@@ -1,76 +1,76 @@
 (* C04: the expected outcome of every case of the exhaustive function-level enumeration, evaluated
-   once when the development is built (see Check/C04Check.v, fn_table_chunk: one number per row of 64 cases, 5 base-64 digits per case).
+   once when the development is built (see Check/C04Check.v, fn_table_chunk; 5 characters per case).
    Order of the chunks: (k, p) in (0,0) (0,1) (0,2) (0,3) (0,4) (1,4) (2,0) (2,1) (2,2) (2,3) (2,4);
    within each u = 0..4, then the no-user-config row. *)
-From Coq Require Import NArith List.
+From Coq Require Import String NArith List.
 From Regal Require Import Check.C04Check.
 Open Scope N_scope.
 
-Definition tbl_0_0_0 : list N := Eval vm_compute in fn_table_chunk 0 0 0.
-Definition tbl_0_0_1 : list N := Eval vm_compute in fn_table_chunk 0 0 1.
-Definition tbl_0_0_2 : list N := Eval vm_compute in fn_table_chunk 0 0 2.
-Definition tbl_0_0_3 : list N := Eval vm_compute in fn_table_chunk 0 0 3.
-Definition tbl_0_0_4 : list N := Eval vm_compute in fn_table_chunk 0 0 4.
-Definition tbl_0_0_nu : list N := Eval vm_compute in fn_table_nouser 0 0.
-Definition tbl_0_1_0 : list N := Eval vm_compute in fn_table_chunk 0 1 0.
-Definition tbl_0_1_1 : list N := Eval vm_compute in fn_table_chunk 0 1 1.
-Definition tbl_0_1_2 : list N := Eval vm_compute in fn_table_chunk 0 1 2.
-Definition tbl_0_1_3 : list N := Eval vm_compute in fn_table_chunk 0 1 3.
-Definition tbl_0_1_4 : list N := Eval vm_compute in fn_table_chunk 0 1 4.
-Definition tbl_0_1_nu : list N := Eval vm_compute in fn_table_nouser 0 1.
-Definition tbl_0_2_0 : list N := Eval vm_compute in fn_table_chunk 0 2 0.
-Definition tbl_0_2_1 : list N := Eval vm_compute in fn_table_chunk 0 2 1.
-Definition tbl_0_2_2 : list N := Eval vm_compute in fn_table_chunk 0 2 2.
-Definition tbl_0_2_3 : list N := Eval vm_compute in fn_table_chunk 0 2 3.
-Definition tbl_0_2_4 : list N := Eval vm_compute in fn_table_chunk 0 2 4.
-Definition tbl_0_2_nu : list N := Eval vm_compute in fn_table_nouser 0 2.
-Definition tbl_0_3_0 : list N := Eval vm_compute in fn_table_chunk 0 3 0.
-Definition tbl_0_3_1 : list N := Eval vm_compute in fn_table_chunk 0 3 1.
-Definition tbl_0_3_2 : list N := Eval vm_compute in fn_table_chunk 0 3 2.
-Definition tbl_0_3_3 : list N := Eval vm_compute in fn_table_chunk 0 3 3.
-Definition tbl_0_3_4 : list N := Eval vm_compute in fn_table_chunk 0 3 4.
-Definition tbl_0_3_nu : list N := Eval vm_compute in fn_table_nouser 0 3.
-Definition tbl_0_4_0 : list N := Eval vm_compute in fn_table_chunk 0 4 0.
-Definition tbl_0_4_1 : list N := Eval vm_compute in fn_table_chunk 0 4 1.
-Definition tbl_0_4_2 : list N := Eval vm_compute in fn_table_chunk 0 4 2.
-Definition tbl_0_4_3 : list N := Eval vm_compute in fn_table_chunk 0 4 3.
-Definition tbl_0_4_4 : list N := Eval vm_compute in fn_table_chunk 0 4 4.
-Definition tbl_0_4_nu : list N := Eval vm_compute in fn_table_nouser 0 4.
-Definition tbl_1_4_0 : list N := Eval vm_compute in fn_table_chunk 1 4 0.
-Definition tbl_1_4_1 : list N := Eval vm_compute in fn_table_chunk 1 4 1.
-Definition tbl_1_4_2 : list N := Eval vm_compute in fn_table_chunk 1 4 2.
-Definition tbl_1_4_3 : list N := Eval vm_compute in fn_table_chunk 1 4 3.
-Definition tbl_1_4_4 : list N := Eval vm_compute in fn_table_chunk 1 4 4.
-Definition tbl_1_4_nu : list N := Eval vm_compute in fn_table_nouser 1 4.
-Definition tbl_2_0_0 : list N := Eval vm_compute in fn_table_chunk 2 0 0.
-Definition tbl_2_0_1 : list N := Eval vm_compute in fn_table_chunk 2 0 1.
-Definition tbl_2_0_2 : list N := Eval vm_compute in fn_table_chunk 2 0 2.
-Definition tbl_2_0_3 : list N := Eval vm_compute in fn_table_chunk 2 0 3.
-Definition tbl_2_0_4 : list N := Eval vm_compute in fn_table_chunk 2 0 4.
-Definition tbl_2_0_nu : list N := Eval vm_compute in fn_table_nouser 2 0.
-Definition tbl_2_1_0 : list N := Eval vm_compute in fn_table_chunk 2 1 0.
-Definition tbl_2_1_1 : list N := Eval vm_compute in fn_table_chunk 2 1 1.
-Definition tbl_2_1_2 : list N := Eval vm_compute in fn_table_chunk 2 1 2.
-Definition tbl_2_1_3 : list N := Eval vm_compute in fn_table_chunk 2 1 3.
-Definition tbl_2_1_4 : list N := Eval vm_compute in fn_table_chunk 2 1 4.
-Definition tbl_2_1_nu : list N := Eval vm_compute in fn_table_nouser 2 1.
-Definition tbl_2_2_0 : list N := Eval vm_compute in fn_table_chunk 2 2 0.
-Definition tbl_2_2_1 : list N := Eval vm_compute in fn_table_chunk 2 2 1.
-Definition tbl_2_2_2 : list N := Eval vm_compute in fn_table_chunk 2 2 2.
-Definition tbl_2_2_3 : list N := Eval vm_compute in fn_table_chunk 2 2 3.
-Definition tbl_2_2_4 : list N := Eval vm_compute in fn_table_chunk 2 2 4.
-Definition tbl_2_2_nu : list N := Eval vm_compute in fn_table_nouser 2 2.
-Definition tbl_2_3_0 : list N := Eval vm_compute in fn_table_chunk 2 3 0.
-Definition tbl_2_3_1 : list N := Eval vm_compute in fn_table_chunk 2 3 1.
-Definition tbl_2_3_2 : list N := Eval vm_compute in fn_table_chunk 2 3 2.
-Definition tbl_2_3_3 : list N := Eval vm_compute in fn_table_chunk 2 3 3.
-Definition tbl_2_3_4 : list N := Eval vm_compute in fn_table_chunk 2 3 4.
-Definition tbl_2_3_nu : list N := Eval vm_compute in fn_table_nouser 2 3.
-Definition tbl_2_4_0 : list N := Eval vm_compute in fn_table_chunk 2 4 0.
-Definition tbl_2_4_1 : list N := Eval vm_compute in fn_table_chunk 2 4 1.
-Definition tbl_2_4_2 : list N := Eval vm_compute in fn_table_chunk 2 4 2.
-Definition tbl_2_4_3 : list N := Eval vm_compute in fn_table_chunk 2 4 3.
-Definition tbl_2_4_4 : list N := Eval vm_compute in fn_table_chunk 2 4 4.
-Definition tbl_2_4_nu : list N := Eval vm_compute in fn_table_nouser 2 4.
+Definition tbl_0_0_0 : string := Eval vm_compute in fn_table_chunk 0 0 0.
+Definition tbl_0_0_1 : string := Eval vm_compute in fn_table_chunk 0 0 1.
+Definition tbl_0_0_2 : string := Eval vm_compute in fn_table_chunk 0 0 2.
+Definition tbl_0_0_3 : string := Eval vm_compute in fn_table_chunk 0 0 3.
+Definition tbl_0_0_4 : string := Eval vm_compute in fn_table_chunk 0 0 4.
+Definition tbl_0_0_nu : string := Eval vm_compute in fn_table_nouser 0 0.
+Definition tbl_0_1_0 : string := Eval vm_compute in fn_table_chunk 0 1 0.
+Definition tbl_0_1_1 : string := Eval vm_compute in fn_table_chunk 0 1 1.
+Definition tbl_0_1_2 : string := Eval vm_compute in fn_table_chunk 0 1 2.
+Definition tbl_0_1_3 : string := Eval vm_compute in fn_table_chunk 0 1 3.
+Definition tbl_0_1_4 : string := Eval vm_compute in fn_table_chunk 0 1 4.
+Definition tbl_0_1_nu : string := Eval vm_compute in fn_table_nouser 0 1.
+Definition tbl_0_2_0 : string := Eval vm_compute in fn_table_chunk 0 2 0.
+Definition tbl_0_2_1 : string := Eval vm_compute in fn_table_chunk 0 2 1.
+Definition tbl_0_2_2 : string := Eval vm_compute in fn_table_chunk 0 2 2.
+Definition tbl_0_2_3 : string := Eval vm_compute in fn_table_chunk 0 2 3.
+Definition tbl_0_2_4 : string := Eval vm_compute in fn_table_chunk 0 2 4.
+Definition tbl_0_2_nu : string := Eval vm_compute in fn_table_nouser 0 2.
+Definition tbl_0_3_0 : string := Eval vm_compute in fn_table_chunk 0 3 0.
+Definition tbl_0_3_1 : string := Eval vm_compute in fn_table_chunk 0 3 1.
+Definition tbl_0_3_2 : string := Eval vm_compute in fn_table_chunk 0 3 2.
+Definition tbl_0_3_3 : string := Eval vm_compute in fn_table_chunk 0 3 3.
+Definition tbl_0_3_4 : string := Eval vm_compute in fn_table_chunk 0 3 4.
+Definition tbl_0_3_nu : string := Eval vm_compute in fn_table_nouser 0 3.
+Definition tbl_0_4_0 : string := Eval vm_compute in fn_table_chunk 0 4 0.
+Definition tbl_0_4_1 : string := Eval vm_compute in fn_table_chunk 0 4 1.
+Definition tbl_0_4_2 : string := Eval vm_compute in fn_table_chunk 0 4 2.
+Definition tbl_0_4_3 : string := Eval vm_compute in fn_table_chunk 0 4 3.
+Definition tbl_0_4_4 : string := Eval vm_compute in fn_table_chunk 0 4 4.
+Definition tbl_0_4_nu : string := Eval vm_compute in fn_table_nouser 0 4.
+Definition tbl_1_4_0 : string := Eval vm_compute in fn_table_chunk 1 4 0.
+Definition tbl_1_4_1 : string := Eval vm_compute in fn_table_chunk 1 4 1.
+Definition tbl_1_4_2 : string := Eval vm_compute in fn_table_chunk 1 4 2.
+Definition tbl_1_4_3 : string := Eval vm_compute in fn_table_chunk 1 4 3.
+Definition tbl_1_4_4 : string := Eval vm_compute in fn_table_chunk 1 4 4.
+Definition tbl_1_4_nu : string := Eval vm_compute in fn_table_nouser 1 4.
+Definition tbl_2_0_0 : string := Eval vm_compute in fn_table_chunk 2 0 0.
+Definition tbl_2_0_1 : string := Eval vm_compute in fn_table_chunk 2 0 1.
+Definition tbl_2_0_2 : string := Eval vm_compute in fn_table_chunk 2 0 2.
+Definition tbl_2_0_3 : string := Eval vm_compute in fn_table_chunk 2 0 3.
+Definition tbl_2_0_4 : string := Eval vm_compute in fn_table_chunk 2 0 4.
+Definition tbl_2_0_nu : string := Eval vm_compute in fn_table_nouser 2 0.
+Definition tbl_2_1_0 : string := Eval vm_compute in fn_table_chunk 2 1 0.
+Definition tbl_2_1_1 : string := Eval vm_compute in fn_table_chunk 2 1 1.
+Definition tbl_2_1_2 : string := Eval vm_compute in fn_table_chunk 2 1 2.
+Definition tbl_2_1_3 : string := Eval vm_compute in fn_table_chunk 2 1 3.
+Definition tbl_2_1_4 : string := Eval vm_compute in fn_table_chunk 2 1 4.
+Definition tbl_2_1_nu : string := Eval vm_compute in fn_table_nouser 2 1.
+Definition tbl_2_2_0 : string := Eval vm_compute in fn_table_chunk 2 2 0.
+Definition tbl_2_2_1 : string := Eval vm_compute in fn_table_chunk 2 2 1.
+Definition tbl_2_2_2 : string := Eval vm_compute in fn_table_chunk 2 2 2.
+Definition tbl_2_2_3 : string := Eval vm_compute in fn_table_chunk 2 2 3.
+Definition tbl_2_2_4 : string := Eval vm_compute in fn_table_chunk 2 2 4.
+Definition tbl_2_2_nu : string := Eval vm_compute in fn_table_nouser 2 2.
+Definition tbl_2_3_0 : string := Eval vm_compute in fn_table_chunk 2 3 0.
+Definition tbl_2_3_1 : string := Eval vm_compute in fn_table_chunk 2 3 1.
+Definition tbl_2_3_2 : string := Eval vm_compute in fn_table_chunk 2 3 2.
+Definition tbl_2_3_3 : string := Eval vm_compute in fn_table_chunk 2 3 3.
+Definition tbl_2_3_4 : string := Eval vm_compute in fn_table_chunk 2 3 4.
+Definition tbl_2_3_nu : string := Eval vm_compute in fn_table_nouser 2 3.
+Definition tbl_2_4_0 : string := Eval vm_compute in fn_table_chunk 2 4 0.
+Definition tbl_2_4_1 : string := Eval vm_compute in fn_table_chunk 2 4 1.
+Definition tbl_2_4_2 : string := Eval vm_compute in fn_table_chunk 2 4 2.
+Definition tbl_2_4_3 : string := Eval vm_compute in fn_table_chunk 2 4 3.
+Definition tbl_2_4_4 : string := Eval vm_compute in fn_table_chunk 2 4 4.
+Definition tbl_2_4_nu : string := Eval vm_compute in fn_table_nouser 2 4.
 
-Definition expected_chunks : list (list N) := [tbl_0_0_0; tbl_0_0_1; tbl_0_0_2; tbl_0_0_3; tbl_0_0_4; tbl_0_0_nu; tbl_0_1_0; tbl_0_1_1; tbl_0_1_2; tbl_0_1_3; tbl_0_1_4; tbl_0_1_nu; tbl_0_2_0; tbl_0_2_1; tbl_0_2_2; tbl_0_2_3; tbl_0_2_4; tbl_0_2_nu; tbl_0_3_0; tbl_0_3_1; tbl_0_3_2; tbl_0_3_3; tbl_0_3_4; tbl_0_3_nu; tbl_0_4_0; tbl_0_4_1; tbl_0_4_2; tbl_0_4_3; tbl_0_4_4; tbl_0_4_nu; tbl_1_4_0; tbl_1_4_1; tbl_1_4_2; tbl_1_4_3; tbl_1_4_4; tbl_1_4_nu; tbl_2_0_0; tbl_2_0_1; tbl_2_0_2; tbl_2_0_3; tbl_2_0_4; tbl_2_0_nu; tbl_2_1_0; tbl_2_1_1; tbl_2_1_2; tbl_2_1_3; tbl_2_1_4; tbl_2_1_nu; tbl_2_2_0; tbl_2_2_1; tbl_2_2_2; tbl_2_2_3; tbl_2_2_4; tbl_2_2_nu; tbl_2_3_0; tbl_2_3_1; tbl_2_3_2; tbl_2_3_3; tbl_2_3_4; tbl_2_3_nu; tbl_2_4_0; tbl_2_4_1; tbl_2_4_2; tbl_2_4_3; tbl_2_4_4; tbl_2_4_nu]%list.
+Definition expected_chunks : list string := [tbl_0_0_0; tbl_0_0_1; tbl_0_0_2; tbl_0_0_3; tbl_0_0_4; tbl_0_0_nu; tbl_0_1_0; tbl_0_1_1; tbl_0_1_2; tbl_0_1_3; tbl_0_1_4; tbl_0_1_nu; tbl_0_2_0; tbl_0_2_1; tbl_0_2_2; tbl_0_2_3; tbl_0_2_4; tbl_0_2_nu; tbl_0_3_0; tbl_0_3_1; tbl_0_3_2; tbl_0_3_3; tbl_0_3_4; tbl_0_3_nu; tbl_0_4_0; tbl_0_4_1; tbl_0_4_2; tbl_0_4_3; tbl_0_4_4; tbl_0_4_nu; tbl_1_4_0; tbl_1_4_1; tbl_1_4_2; tbl_1_4_3; tbl_1_4_4; tbl_1_4_nu; tbl_2_0_0; tbl_2_0_1; tbl_2_0_2; tbl_2_0_3; tbl_2_0_4; tbl_2_0_nu; tbl_2_1_0; tbl_2_1_1; tbl_2_1_2; tbl_2_1_3; tbl_2_1_4; tbl_2_1_nu; tbl_2_2_0; tbl_2_2_1; tbl_2_2_2; tbl_2_2_3; tbl_2_2_4; tbl_2_2_nu; tbl_2_3_0; tbl_2_3_1; tbl_2_3_2; tbl_2_3_3; tbl_2_3_4; tbl_2_3_nu; tbl_2_4_0; tbl_2_4_1; tbl_2_4_2; tbl_2_4_3; tbl_2_4_4; tbl_2_4_nu]%list.
